@@ -414,7 +414,12 @@ func (h *harness) buildBase(sc int, tr transition, nUsers, colsPerUser, ptsPerCo
 	// ---- synthetic shard directories (chunk boundary sizes), thorough tier
 	for i, size := range synth {
 		owner := b.specs[tr.old[h.rng.Intn(len(tr.old))]]
-		key := fmt.Sprintf("synth%02d/col00/%s", i, uuid.New().String())
+		// a shard id that has to move under the new server list
+		id := uuid.New().String()
+		for t := 0; t < 200 && cluster.RendezvousHash(id, b.newH, 1)[0] == owner.host(); t++ {
+			id = uuid.New().String()
+		}
+		key := fmt.Sprintf("synth%02d/col00/%s", i, id)
 		dir := filepath.Join(owner.root, cluster.USERCOLSDIR, filepath.FromSlash(key))
 		if err := os.MkdirAll(dir, 0o755); err != nil {
 			return nil, err
@@ -1138,6 +1143,11 @@ func (h *harness) faultsFor(b *base, specs []nodeSpec, maxIdxPerFile int, kills 
 				}
 			}
 			cand[big] = true
+			for _, k := range o.files {
+				if b.synth[k] {
+					cand[k] = true
+				}
+			}
 			var cs []string
 			for k := range cand {
 				cs = append(cs, k)
@@ -1319,6 +1329,7 @@ func main() {
 	replay := flag.String("replay", "", "")
 	tier := flag.String("tier", "quick", "")
 	isChild := flag.Bool("child", false, "")
+	inner := flag.Bool("inner", false, "")
 	root := flag.String("root", "", "")
 	port := flag.Int("port", 0, "")
 	servers := flag.String("servers", "", "")
@@ -1332,6 +1343,38 @@ func main() {
 	if *replay != "" {
 		runReplay(self, *replay)
 		return
+	}
+	if !*inner {
+		// The scenarios run in a child process: a crash of the code under test in some goroutine
+		// (which no recover of the harness can catch) must not end the run silently.  One retry,
+		// then the crash is reported with the tail of its output.
+		var tail string
+		for attempt := 0; attempt < 2; attempt++ {
+			os.Remove(filepath.Join(*outDir, "stats.json"))
+			cmd := exec.Command(self, "-inner", "-seed", strconv.FormatUint(*seed, 10), "-tier", *tier, "-out", *outDir)
+			var buf bytes.Buffer
+			cmd.Stdout = &buf
+			cmd.Stderr = &buf
+			err := cmd.Run()
+			if _, serr := os.Stat(filepath.Join(*outDir, "stats.json")); err == nil && serr == nil {
+				return
+			}
+			lines := strings.Split(buf.String(), "\n")
+			var keep []string
+			for _, l := range lines {
+				if !strings.HasPrefix(l, "{\"level\"") {
+					keep = append(keep, l)
+				}
+			}
+			if len(keep) > 60 {
+				keep = keep[:60]
+			}
+			tail = strings.Join(keep, "\n")
+			os.WriteFile(filepath.Join(*outDir, fmt.Sprintf("crash-%d.log", attempt)), buf.Bytes(), 0o644)
+		}
+		fmt.Println("harness process crashed twice; output of the last attempt:")
+		fmt.Println(tail)
+		os.Exit(3)
 	}
 	tmp, err := os.MkdirTemp("", "c14-")
 	if err != nil {
@@ -1462,7 +1505,7 @@ func runReplay(self, path string) {
 	}
 	tmp, _ := os.MkdirTemp("", "c14-replay-")
 	defer os.RemoveAll(tmp)
-	cmd := exec.Command(self, "-seed", strconv.FormatUint(seed, 10), "-tier", tier, "-out", tmp)
+	cmd := exec.Command(self, "-inner", "-seed", strconv.FormatUint(seed, 10), "-tier", tier, "-out", tmp)
 	cmd.Run()
 	ops, _ := os.ReadFile(filepath.Join(tmp, "ops.txt"))
 	impl, _ := os.ReadFile(filepath.Join(tmp, "impl.txt"))
